@@ -17,8 +17,17 @@ CLAIMS = {
     "C03": {"design_ref": "DESIGN.md 7/C03",
             "text": "Coq theorems: the cached and the reference computer leave Leibniz-equal rows for every table whose known rows have lower == upper (all n); spec of the memoised relation matrix and selection lemmas; memo invariant over any interleaving of player counts. Correspondence: impl-cached vs impl-ref vs model (n = 2..8), interleaved / repeated use with hashed memo arrays, relation matrix vs Structure.st_matrix.",
             "technique": "Coq proof (uniqueness of the fixpoint equations) + three-way differential check"},
+    "C02": {"design_ref": "DESIGN.md 7/C02",
+            "text": "Coq theorems (all n, K, v, stale tables, both computers): every superadditive completion lies between the computed bounds; the lower bounds are themselves a completion (minimum attained simultaneously); every upper bound is attained by an explicit completion w(X) = max(L X, U S + L(X\\S)); explicit min-over-known-supersets formula. Correspondence as C01 plus an independent exact optimum (Fractions) and, thorough, the two LPs over the completion polytope.",
+            "technique": "Coq proof (soundness applied to arbitrary completions + explicit extremal witness) + correspondence + independent optimum oracle"},
+    "C04": {"design_ref": "DESIGN.md 7/C04",
+            "text": "Coq theorems for EVERY repetition count r: soundness (invariant preserved by every single cell write), never looser than the superadditive bounds, monotone in r, lower bounds antitone along inclusion, upper-bound caps; all for arbitrary stale tables. Correspondence of compute_bounds_superadditive_monotone_approx_cached with the model for r in 0..10, 100, 1000 and oracles on the implementation.",
+            "technique": "Coq proof (loop invariant over rounds and cells) + correspondence"},
+    "C07": {"design_ref": "DESIGN.md 7/C07",
+            "text": "Coq theorem: K <= K' implies pointwise tighter intervals for both superadditive computers (all n, any tables holding the knowledge). Gap-function monotonicity (l1, l-inf, squared l2, binomially weighted gap) is proved in the Norms/Exploit development (C05 slice) and cited when merged; the SAM variant and the four registered gap functions are checked on every edge of the knowledge lattice (n<=3 quick, n<=4 thorough) on the implementation and against the model.",
+            "technique": "Coq proof (induction on coalition size over two solutions) + lattice-edge correspondence + gap oracles"},
     "C08": {"design_ref": "DESIGN.md 7/C08",
-            "text": "Coq theorems for the superadditive computers: the result is a function of the known rows only (stale unknown rows irrelevant, any game class), recomputation idempotent, reveal+un-reveal undone exactly, histories ending in the same knowledge confluent. For the SAM approximations the same statements are checked by correspondence + implementation-side oracles (route independence, idempotence, undo, stale rows) for every registered computer.",
+            "text": "Coq theorems for EVERY computer of the registry (reference, cached, SAM approximation with any repetition count): the result is a function of the known rows only (stale unknown rows irrelevant, any game class), recomputation idempotent, reveal+un-reveal undone exactly, histories ending in the same knowledge confluent, computed states fresh. Correspondence on histories + implementation-side oracles (route independence, idempotence, undo, stale rows) for every registered computer.",
             "technique": "Coq proof (fixpoint uniqueness) + history correspondence + route-independence oracle"},
 }
 
